@@ -1,9 +1,10 @@
 from contracts.workspace_io import IoCall, UpdateAttributeGuard, FetchActiveWorkspace, structural_scan
-CONTRACTS = [IoCall, UpdateAttributeGuard, FetchActiveWorkspace]
+from contracts.sessions import ReadOnlyHistories
+CONTRACTS = [IoCall, UpdateAttributeGuard, FetchActiveWorkspace, ReadOnlyHistories]
 EXTRA_CHECKS = [structural_scan]
 
 MANIFEST = {
     "category": "proof",
     "text": "Workspace._io_call (the single write guard) is verified for every handle state and requested mode: a writing function never runs on a read-only handle (UserWarning, function not called), a closed workspace raises the closed-file error, otherwise the function runs exactly once on the handle. Workspace.update_attribute is verified to reach a writing _io_call on every path for plain, concatenated and channel updates, so a read-only workspace refuses every setter. fetch_active_workspace (generator semantics: the block completes or raises at the yield) is verified to re-open in exactly the requested mode, only when the current handle does not grant it, and to close what it opened. A structural obligation generated from the whole package's AST on every run: every H5Writer function used outside the writer is the first argument of _io_call(..., mode='r+'), and h5py.File is opened only in the audited modules.",
-    "note": "That h5py never writes through a mode-'r' handle is an assumption on the dependency; the structural scan is syntactic (aliases of H5Writer would escape it); path2workspace / monitored_directory_copy / InputFile helpers are not under contract; no native replay yet (violations are reported with the solver/abstract trace, no-failing-input-found).",
+    "note": "That h5py never writes through a mode-'r' handle is an assumption on the dependency; the structural scan is syntactic (aliases of H5Writer would escape it); path2workspace / monitored_directory_copy / InputFile helpers and Workspace.open's mode fallback are only covered by the bounded read-only histories (sha256 of the file, handle mode, refusal of writes after every call); no native replay of deductive violations yet (violations are reported with the solver/abstract trace, no-failing-input-found).",
 }
